@@ -320,6 +320,36 @@ type Op struct {
 	P    *Policy `json:"p,omitempty"`
 	Dt   int64   `json:"dt,omitempty"`
 	Alt  string  `json:"alt,omitempty"` // serve: Link rel=alternate target (observation stream only)
+	CT   string  `json:"ct,omitempty"`  // serve with Alt: Content-Type of the response (default text/html)
+}
+
+// jsonMediaType: is the media type of a Content-Type header, parameters stripped, application/json or
+// application/*+json (then an alternate link is not followed).  Written from the JSON-LD spec text,
+// not with mime.ParseMediaType.
+func jsonMediaType(ct string) bool {
+	if i := strings.IndexByte(ct, ';'); i >= 0 {
+		ct = ct[:i]
+	}
+	ct = strings.ToLower(strings.TrimSpace(ct))
+	if ct == "application/json" {
+		return true
+	}
+	if !strings.HasPrefix(ct, "application/") || !strings.HasSuffix(ct, "+json") {
+		return false
+	}
+	for _, c := range ct[len("application/") : len(ct)-len("+json")] {
+		if !(c == '_' || c >= '0' && c <= '9' || c >= 'a' && c <= 'z') {
+			return false
+		}
+	}
+	return true
+}
+
+func (op Op) contentType() string {
+	if op.CT == "" {
+		return "text/html"
+	}
+	return op.CT
 }
 
 type Emb struct {
@@ -362,6 +392,7 @@ type answer struct {
 	v    int
 	pol  Policy
 	alt  string
+	ct   string
 }
 
 var notFound = answer{code: 404, json: false, pol: Policy{K: pNone}}
@@ -427,7 +458,7 @@ func (o *origin) RoundTrip(req *http.Request) (*http.Response, error) {
 	h := a.pol.headers(time.Now())
 	h.Set("Content-Type", "application/json")
 	if a.alt != "" {
-		h.Set("Content-Type", "text/html")
+		h.Set("Content-Type", a.ct)
 		h.Set("Link", fmt.Sprintf(`<%s>; rel="alternate"; type="application/ld+json"`, a.alt))
 	}
 	return &http.Response{
@@ -764,7 +795,7 @@ func (g *gen) runHistory(in Input) (*result, error) {
 				p = op.P.canon()
 			}
 			g.pols[p] = true
-			w.org.at[op.U] = answer{code: op.Code, json: op.JSON, v: op.V, pol: p, alt: op.Alt}
+			w.org.at[op.U] = answer{code: op.Code, json: op.JSON, v: op.V, pol: p, alt: op.Alt, ct: op.contentType()}
 			keyset[op.U] = true
 			if op.Alt != "" {
 				keyset[op.Alt] = true
@@ -1229,7 +1260,7 @@ func (g *gen) coqHistory(f *coqgen.File, id int, r *result) string {
 				p = op.P.canon()
 			}
 			if op.Alt != "" {
-				ops = append(ops, fmt.Sprintf("RServeAlt %s %d %s %d %d %s %s", f.Str(op.U), op.Code, coqgen.Bool(op.JSON), op.V, p.K, sint(p.N), f.Str(op.Alt)))
+				ops = append(ops, fmt.Sprintf("RServeAlt %s %d %s %d %d %s %s %s", f.Str(op.U), op.Code, coqgen.Bool(op.JSON), op.V, p.K, sint(p.N), f.Str(op.Alt), coqgen.Bool(jsonMediaType(op.contentType()))))
 			} else {
 				ops = append(ops, fmt.Sprintf("RServe %s %d %s %d %d %s", f.Str(op.U), op.Code, coqgen.Bool(op.JSON), op.V, p.K, sint(p.N)))
 			}
@@ -1624,6 +1655,10 @@ func (g *gen) genLinkObs() Input {
 		if r.Intn(100) < 45 && !strings.HasPrefix(k, "ipfs://") {
 			op.Alt = urls[r.Intn(len(urls))] // may be k itself, may be an unsupported scheme
 			op.JSON = r.Intn(3) == 0
+			op.CT = ctPool[r.Intn(len(ctPool))]
+			if jsonMediaType(op.CT) {
+				op.JSON = r.Intn(5) != 0 // the link is not followed: the body is what is parsed
+			}
 		}
 		if r.Intn(100) < 8 {
 			op.Code = codePool[r.Intn(len(codePool))]
@@ -1654,6 +1689,10 @@ func (g *gen) genLinkObs() Input {
 	return in
 }
 
+var ctPool = []string{"", "", "", "text/html; charset=utf-8", "application/json", "application/json; charset=utf-8",
+	"application/ld+json", "application/ld+json; charset=utf-8", "application/vc+json", "Application/JSON; charset=UTF-8",
+	"application/xml", "application/json;charset=utf-8"}
+
 // fixed histories of the observation stream: the witnesses of C19_link_reuse_refuted (O-L2) and
 // C19_link_diverges_refuted (O-L1), a two-cycle, and a chain that ends well
 func scriptedLinkObs() []Input {
@@ -1668,6 +1707,13 @@ func scriptedLinkObs() []Input {
 		{Kind: "linkobs", Cfg: Cfg{Mode: 2}, Ops: []Op{alt(u, pol(pMaxAge, 3000), a), doc(a, 1, pol(pNoStore, 0)), load(u),
 			doc(a, 2, pol(pNoStore, 0)), {T: "tick", Dt: 1000}, load(u), {T: "tick", Dt: 2000}, load(u)}},
 		{Kind: "linkobs", Cfg: Cfg{Mode: 1}, Ops: []Op{alt(u, pol(pNoStore, 0), u), load(u)}},
+		// JSON media types (with and without parameters): the alternate link must NOT be followed
+		{Kind: "linkobs", Cfg: Cfg{Mode: 2}, Ops: []Op{
+			{T: "serve", U: u, Code: 200, JSON: true, V: 1, P: pol(pMaxAge, 1000), Alt: a, CT: "application/json; charset=utf-8"},
+			doc(a, 2, pol(pMaxAge, 1000)), load(u),
+			{T: "serve", U: b, Code: 200, JSON: true, V: 3, P: pol(pNoStore, 0), Alt: a, CT: "application/json"}, load(b),
+			{T: "serve", U: b, Code: 200, JSON: true, V: 4, P: pol(pNoStore, 0), Alt: a, CT: "application/ld+json; charset=utf-8"}, load(b),
+			{T: "serve", U: b, Code: 200, JSON: true, V: 5, P: pol(pNoStore, 0), Alt: a, CT: "text/html; charset=utf-8"}, load(b)}},
 		{Kind: "linkobs", Cfg: Cfg{Mode: 2}, Ops: []Op{alt(u, pol(pMaxAge, 1000), a), alt(a, pol(pMaxAge, 1000), u), load(u), load(a)}},
 		{Kind: "linkobs", Cfg: Cfg{Mode: 2}, Ops: []Op{alt(u, pol(pMaxAge, 1000), a), alt(a, pol(pMaxAge, 2000), b), doc(b, 1, pol(pMaxAge, 3000)),
 			load(u), load(a), load(b), {T: "tick", Dt: 1000}, load(u), load(a), load(b)}},
